@@ -417,6 +417,12 @@ impl<S, V> LoadContractCodeCtx<'_, S, V> {
         *self.sp = new_sp;
         *self.ssp = new_sp;
 
+        // Only `length_unpadded` bytes are copied from the contract; the padding up
+        // to the word boundary must be zeroes, not the code that follows the range.
+        let copy_end = contract_offset.saturating_add(length_unpadded);
+        let src_len = usize::try_from(copy_end)
+            .unwrap_or(usize::MAX)
+            .min(contract_len);
         copy_from_storage_zero_fill::<ContractsRawCode, _>(
             self.memory,
             owner,
@@ -425,7 +431,7 @@ impl<S, V> LoadContractCodeCtx<'_, S, V> {
             length,
             &contract_id,
             contract_offset,
-            contract_len,
+            src_len,
             PanicReason::ContractNotFound,
         )?;
 
@@ -500,7 +506,12 @@ impl<S, V> LoadContractCodeCtx<'_, S, V> {
         *self.sp = new_sp;
         *self.ssp = new_sp;
 
-        // Copy the code.
+        // Copy the code. Only `length_unpadded` bytes are copied from the blob; the
+        // padding up to the word boundary must be zeroes, not the bytes that follow.
+        let copy_end = blob_offset.saturating_add(length_unpadded);
+        let src_len = usize::try_from(copy_end)
+            .unwrap_or(usize::MAX)
+            .min(blob_len);
         copy_from_storage_zero_fill::<BlobData, _>(
             self.memory,
             owner,
@@ -509,7 +520,7 @@ impl<S, V> LoadContractCodeCtx<'_, S, V> {
             length,
             &blob_id,
             blob_offset,
-            blob_len,
+            src_len,
             PanicReason::BlobNotFound,
         )?;
 
